@@ -97,6 +97,9 @@ def render_stmt(s, keep_export=True):
     ex = "export " if (s[1] and keep_export) else ""
     if k == "F":
         refs = "".join(" + " + r for r in s[4])
+        if len(s) > 5 and s[5]:      # takes a struct (declared in this or an imported module) by value
+            return ('%sint %s(%s q) { static int n = 0; n = n + 1; println("@f", %d, n); int a = q.x; return a%s; }'
+                    % (ex, s[2], s[5], s[3], refs))
         return ('%sint %s(int a) { static int n = 0; n = n + 1; println("@f", %d, n); return a%s; }' % (ex, s[2], s[3], refs))
     if k == "S":
         mems = " ".join(("int[%d] %s;" % (x, m)) if x is not None else (("T %s;" if s[3] else "int %s;") % m) for m, x in s[4])
@@ -149,14 +152,16 @@ def gen_modules(rng, n, edges, defects=(), prefix=""):
         stmts = [("I", mods[j]["modpath"]) for j in range(i) if (i, j) in edges]
         if stmts and rng.random() < 0.3:
             stmts.append(stmts[0])                                    # a module importing twice
-        pool_val, pool_fun = [], []
+        pool_val, pool_fun, pool_str = [], [], []
         for j in range(i):
             if (i, j) in edges and "open_closure" not in defects:   # (#35: such references would fail at run time)
                 pool_val += exported[j]["val"]
                 pool_fun += exported[j]["fun"]
-        own_val, own_fun = [], []
+                if not prefix:          # (run-time-only placement: the module's own parser cannot see imported types)
+                    pool_str += exported[j]["str"]
+        own_val, own_fun, own_str = [], [], []
         nitems = rng.randint(2, 5)
-        kinds = [rng.choice("FFFSSEKVTG") for _ in range(nitems)]
+        kinds = [rng.choice("FFFPSSEKVTG") for _ in range(nitems)]
         if i == 0 and "V" not in kinds:
             kinds.append("V")
         for j, kd in enumerate(kinds):
@@ -172,7 +177,12 @@ def gen_modules(rng, n, edges, defects=(), prefix=""):
                     t, x = rng.choice(cand)
                     out.append(x if t == "v" else "%s(a)" % x)
                 return out
-            if kd == "F":
+            if kd == "P" and not (pool_str + own_str):
+                kd = "F"
+            if kd == "P":
+                nm = "p%d_%d" % (i, j)
+                stmts.append(("F", e, nm, ident, [r for r in refs() if "(a)" not in r] if e else [], rng.choice(pool_str + own_str)))
+            elif kd == "F":
                 nm = "f%d_%d" % (i, j)
                 stmts.append(("F", e, nm, ident, refs() if e else []))
                 if e:
@@ -202,6 +212,8 @@ def gen_modules(rng, n, edges, defects=(), prefix=""):
                 if "array" in defects and e:
                     mems.append(("v", 3))
                 stmts.append(("S", e, sn, False, mems))
+                if e:
+                    own_str.append(sn)
                 ie = e and rng.random() < 0.8
                 impl_e = e
                 if "hidden_impl" in defects and e and rng.random() < 0.7:
@@ -218,7 +230,7 @@ def gen_modules(rng, n, edges, defects=(), prefix=""):
                         ctors.append((2, ident + 7))
                     dtor = ident + 8 if rng.random() < 0.5 else None
                     stmts.append(("M", impl_e, None, sn, [], ctors, dtor, []))
-        exported[i] = {"val": own_val, "fun": own_fun}
+        exported[i] = {"val": own_val, "fun": own_fun, "str": own_str}
         mods.append({"modpath": modpath, "path": prefix + file_path(modpath), "stmts": stmts,
                      "imports": sorted(set(j for j in range(i) if (i, j) in edges))})
     return mods
@@ -310,7 +322,7 @@ def is_mangled(k, tab):
     return False
 
 
-def build_main(tab, single_seg_mods, reimport=None, blind=False):
+def build_main(tab, single_seg_mods, reimport=None, blind=False, fparams=None):
     """main() that uses every name the model says is bound; returns (text, expectations) where
     expectations[idx] = (first '@' line demanded in block idx, last line demanded or None, what)."""
     body, exp = [], []
@@ -341,6 +353,13 @@ def build_main(tab, single_seg_mods, reimport=None, blind=False):
             continue
         b = tab["F"][k]
         r = "r%d" % len(exp)
+        ps = (fparams or {}).get(k.rsplit(".", 1)[-1])
+        if ps:
+            if ps not in tab["S"]:
+                continue
+            block(['%s %sq; %sq.x = 5; int %sa = %s(%sq); println("=", %sa);' % (ps, r, r, r, k, r, r)],
+                  "@f %d" % b, None, "function %s(%s)" % (k, ps))
+            continue
         block(['int %sa = %s(3); println("=", %sa);' % (r, k, r), 'int %sb = %s(4); println("=", %sb);' % (r, k, r)],
               "@f %d" % b, None, "function " + k)
     for n, k in enumerate(sorted(tab["S"])):
@@ -517,7 +536,7 @@ def make_graph_case(seed, tag, k, n, edges, defects=(), prefix=""):
     rng.shuffle(base)
     local = []
     # a local function of the importer that calls an imported exported function / reads a constant
-    vis_f = [s[2] for i in imports_idx for s in mods[i]["stmts"] if s[0] == "F" and s[1]]
+    vis_f = [s[2] for i in imports_idx for s in mods[i]["stmts"] if s[0] == "F" and s[1] and len(s) <= 5]
     vis_v = [s[2] for i in imports_idx for s in mods[i]["stmts"] if s[0] == "V" and s[1] and s[4] is not None]
     if vis_f or vis_v:
         refs = ([rng.choice(vis_f) + "(a)"] if vis_f else []) + ([rng.choice(vis_v)] if vis_v else [])
@@ -595,8 +614,9 @@ def run_graph_case(impl, case, tab, tier, seed, oracle=True):
             if reimp:
                 break
         blind = bool(case.get("prefix"))
-        main_text, exp = build_main(tab, single, reimport=(reimp + (True,)) if reimp else None, blind=blind)
-        main_inl, _ = build_main(tab, set(), reimport=(reimp + (False,)) if reimp else None, blind=blind)
+        fparams = {st[2]: st[5] for m in mods for st in m["stmts"] if st[0] == "F" and len(st) > 5 and st[5]}
+        main_text, exp = build_main(tab, single, reimport=(reimp + (True,)) if reimp else None, blind=blind, fparams=fparams)
+        main_inl, _ = build_main(tab, set(), reimport=(reimp + (False,)) if reimp else None, blind=blind, fparams=fparams)
         rng = rng_for(seed, "c18-variants", *case["seed_tag"])
         vs = variants_of(case, rng, tier)
         outs = []
@@ -641,7 +661,7 @@ def run_graph_case(impl, case, tab, tier, seed, oracle=True):
             order = closure(mods, sorted(set(imps0)))
             # inlined form needs the same bindings minus qualified names: rebuild the base run without them
             if single:
-                main_nq, _ = build_main(tab, set(), reimport=(reimp + (True,)) if reimp else None, blind=blind)
+                main_nq, _ = build_main(tab, set(), reimport=(reimp + (True,)) if reimp else None, blind=blind, fparams=fparams)
                 rcq, oq, eq = tree.run(impl, program_text(imps0, modpaths, case["local"], main_nq))
                 runs += 1
             else:
@@ -818,7 +838,7 @@ def build_cases(seed, tier):
     if tier == "quick":
         plan = [(1, 3), (2, 4), (3, 4)]            # (n, content seeds per graph)
     else:
-        plan = [(1, 4), (2, 6), (3, 6), (4, 3), (5, 1)]
+        plan = [(1, 4), (2, 6), (3, 8), (4, 6), (5, 2)]
     for n, reps in plan:
         for gi, edges in enumerate(all_dags(n)):
             for r in range(reps):
@@ -893,6 +913,11 @@ def run(rep):
     if not cq["ok"]:
         rep.violation("proof", {"theorem": cq["failed_theorem"], "log": cq["log"][-3000:]},
                       "proof obligation %s no longer checks" % cq["failed_theorem"], True)
+    if tier == "thorough" and cq["ok"]:
+        okc, summ = common.coqchk(PROP)
+        rep.coverage["coqchk"] = {"ok": okc, "context_summary": summ[:800]}
+        if not okc:
+            rep.violation("coqchk", {"log": summ[-2000:]}, "coqchk rejects the compiled C18 development", True)
     common.ensure_model(PROP)
     impl = common.build_impl("plain")
 
